@@ -25,6 +25,16 @@ def apply_contract(ip, c, info, args, kwargs, st, node):
         return
     ctx.contracts_used[c.key] += 1
     line = getattr(node, 'lineno', 0)
+    if ctx.spec_depth:
+        if not c.functional:
+            raise EngineError(f'specification calls {info.qualname}, which is used through a non-functional contract')
+        f = st.push(info)
+        f.vars.update(env)
+        r = functional_result(ip, c, info, f.vars)
+        st.pop()
+        del st.frames[f.fid]
+        yield r, st
+        return
     caller = st.frame.finfo.qualname
     f = st.push(info)
     f.vars.update(env)
@@ -90,11 +100,36 @@ def apply_contract(ip, c, info, args, kwargs, st, node):
                     nxt.append((None, s2))
         branches = nxt
     for _, s in branches:
-        if c.result_shape is not None:
-            result = c.result_shape.fresh(ctx, ctx.fresh_name(f'{info.qualname}.result'))
+        if c.functional:
+            yield_one = [functional_result(ip, c, info, s.frame.vars)]
+        elif c.result_shape is not None:
+            alts = c.result_shape.alternatives()
+            yield_one = None
+            states = [s] + [s.clone() for _ in alts[1:]]
+            for alt, s_alt in zip(alts, states):
+                result = alt.fresh(ctx, ctx.fresh_name(f'{info.qualname}.result'))
+                yield result, finish(s_alt, result)
+            continue
         else:
-            result = None
-        yield result, finish(s, result)
+            yield_one = [None]
+        yield yield_one[0], finish(s, yield_one[0])
+
+
+def functional_result(ip, c, info, env):
+    """result of a pure function used through its contract: an application of an uninterpreted function to
+    its numeric arguments (the object state it reads must be in the caller's frame: checked by the caller's
+    modifies clause), so that equal arguments give equal results and specifications can name the value"""
+    from .values import zreal, is_num, SNum
+    a = info.node.args
+    names = [p.arg for p in a.posonlyargs + a.args if p.arg != 'self']
+    zs = [zreal(env[n]) for n in names if is_num(env[n])]
+    n_out = c.functional_outputs if hasattr(c, 'functional_outputs') else 1
+    outs = []
+    for k in range(n_out):
+        f = ip.ctx.uf(f'{c.functional}{k if n_out > 1 else ""}', *([z3.RealSort()] * (len(zs) + 1)))
+        outs.append(SNum(f(*zs)))
+        ip.ctx.trusted[f'contract-level function {c.functional}'] += 0
+    return outs[0] if n_out == 1 else tuple(outs)
 
 
 def _exc_class(info, name):
